@@ -724,7 +724,7 @@ RESTART_WEAK = (("ClaimsNotLogged", "LockSurvives"), ("WalSkipsBlockParts", "Rep
                 ("WalSkipsTimeouts", "ReplayFaithful"), ("WalSkipsOwnVotes", "ReplayFaithful"))
 
 
-def restart_section(ctx, binp, attacks, account, cov, totals, label="R", walks=None, quick=None):
+def restart_section(ctx, binp, attacks, account, cov, totals, label="R", walks=None, quick=None, exhaustive=True, only_weak=None):
     """Nodes run the real receiveRoutine on a real WAL (routine mode of the driver); a node may be stopped and started
     inside the height (real catchupReplay).  TLC: TMConsensusRestart exhaustive on 2+1 with one restart (all network
     invariants + ReplayFaithful + LockSurvives), its weak switches refuted on 3+1 round 0 and the counterexamples
@@ -736,19 +736,20 @@ def restart_section(ctx, binp, attacks, account, cov, totals, label="R", walks=N
     # R1: exhaustive, 2 correct + 1 faulty, rounds 0..1, at most one restart (thorough: two)
     powers, byz = [2, 2, 1], ["v2"]
     info = run_driver(ctx, binp, {"mode": "info", "powers": powers, "byz": byz, "maxround": 14}, "info" + label)
-    mc = restart_mc(ctx, "CR_small_" + label, info, byz, 1, invariants=NET_INVS + ["ReplayFaithful", "LockSurvives"],
-                    max_restarts=1 if quick else 2)
-    r1 = ctx.tlc(mc, mc + ".cfg", must_pass=True, timeout=3000, label="restart_small")
-    totals["states"] += r1.distinct
-    totals["transitions"] += r1.generated
-    out["exhaustive_2+1"] = {"states": r1.distinct, "max_restarts": 1 if quick else 2, "exhaustive": not r1.timed_out}
+    if exhaustive:
+        mc = restart_mc(ctx, "CR_small_" + label, info, byz, 1, invariants=NET_INVS + ["ReplayFaithful", "LockSurvives"],
+                        max_restarts=1 if quick else 2)
+        r1 = ctx.tlc(mc, mc + ".cfg", must_pass=True, timeout=3000, label="restart_small")
+        totals["states"] += r1.distinct
+        totals["transitions"] += r1.generated
+        out["exhaustive_2+1"] = {"states": r1.distinct, "max_restarts": 1 if quick else 2, "exhaustive": not r1.timed_out}
     # R2: non-vacuity on 3 correct + 1 faulty, round 0; each counterexample + the restart it prepares runs on real nodes
     powers3 = [1, 1, 1, 1]
     info3 = run_driver(ctx, binp, {"mode": "info", "powers": powers3, "byz": [], "maxround": 14}, "info3" + label)
     byz3 = [info3["names"][3]]
     corr3 = [n for n in info3["names"] if n not in byz3]
     scheds, nonvac = [], {}
-    for k, (weak, inv) in enumerate(RESTART_WEAK):
+    for k, (weak, inv) in enumerate([x for x in RESTART_WEAK if only_weak is None or x[0] in only_weak]):
         m2 = restart_mc(ctx, "CR_weak_%s_%s" % (weak, label), info3, byz3, 0, weak=[weak], invariants=[inv], max_restarts=1)
         rw = ctx.tlc(m2, m2 + ".cfg", timeout=900, label="restart_weak_" + weak)
         found = [x["name"] for x in rw.violations]
